@@ -105,8 +105,9 @@ def encode(sc):
         if e.get('gen_pattern'):
             out += [107, key] + pad([z + 2 for z in e['gen_pattern']], 6)      # sizes: -1 empty batch, 0 single part, n a batch of n
         for which in ('receive', 'finish', 'shutdown', 'restore'):
-            for cb in e.get('on_' + which, []):
-                out += [105, key, WHICH[which], CBOPS[cb[0]]] + pad(cb[1:], 4)
+            for _ in range(2 if which == 'shutdown' and e.get('dup_shutdown') else 1):     # registered twice: runs twice, in order
+                for cb in e.get('on_' + which, []):
+                    out += [105, key, WHICH[which], CBOPS[cb[0]]] + pad(cb[1:], 4)
     for n, a in sc['pools']:
         out += [20, n, a, 0, 0, 0, 0, 0]
     for k, ops in enumerate(sc['uops']):
@@ -281,7 +282,10 @@ def build(sc):
                              ('shutdown', 'add_shutdown_callback'), ('restore', 'add_restored_callback')):
             ops = e.get('on_' + which)
             if ops:
-                getattr(o, adder)(make_cb(nid(o), which, ops))
+                cb = make_cb(nid(o), which, ops)
+                getattr(o, adder)(cb)
+                if which == 'shutdown' and e.get('dup_shutdown'):
+                    getattr(o, adder)(cb)
         return o
     W.make = make
 
